@@ -433,15 +433,27 @@ func runOnce(si, round int, sc Scenario) Outcome {
 			count(put(rcv.Router, fmt.Sprintf("/upload/%s/%s/init%s", chn, late.Name, late.Ext), inits[late.Name], sc.Auth))
 		} else {
 			release, _ := rcv.HoldMPD(chn)
-			count(put(rcv.Router, fmt.Sprintf("/upload/%s/%s/2%s", chn, master.Name, master.Ext), segment(master, 2), sc.Auth))
-			time.Sleep(20 * time.Millisecond) // the channel goroutine is in its start-up derivation, waiting for the mutex
 			var lw sync.WaitGroup
-			lw.Add(1)
-			go func() {
-				defer lw.Done()
-				count(put(rcv.Router, fmt.Sprintf("/upload/%s/%s/init%s", chn, late.Name, late.Ext), inits[late.Name], sc.Auth))
-			}()
-			time.Sleep(20 * time.Millisecond)
+			lateInit := func() {
+				lw.Add(1)
+				go func() {
+					defer lw.Done()
+					count(put(rcv.Router, fmt.Sprintf("/upload/%s/%s/init%s", chn, late.Name, late.Ext), inits[late.Name], sc.Auth))
+				}()
+				time.Sleep(20 * time.Millisecond) // the handler waits for the MPD mutex
+			}
+			masterSeg := func() {
+				count(put(rcv.Router, fmt.Sprintf("/upload/%s/%s/2%s", chn, master.Name, master.Ext), segment(master, 2), sc.Auth))
+				time.Sleep(20 * time.Millisecond) // the channel goroutine is in its start-up derivation, waiting for the mutex
+			}
+			// who waits for the mutex first gets it first: both orders
+			if round%2 == 0 {
+				lateInit()
+				masterSeg()
+			} else {
+				masterSeg()
+				lateInit()
+			}
 			release()
 			lw.Wait()
 		}
